@@ -337,8 +337,7 @@ func (p *Prog) Method(pkg, typ, name string) *ssa.Function {
 	for _, t := range []types.Type{types.NewPointer(obj.Type()), obj.Type()} {
 		sel := p.SSA.MethodSets.MethodSet(t).Lookup(sp.Pkg, name)
 		if sel != nil {
-			if fn := p.SSA.MethodValue(sel); fn != nil {
-				// unwrap promoted-method wrappers is not needed: repo has none here
+			if fn := p.SSA.MethodValue(sel); fn != nil && fn.Synthetic == "" {
 				return fn
 			}
 		}
